@@ -31,14 +31,20 @@ META = dict(
          "- Future, Task, object with __await__, generator-based coroutine - that completes later) with a fault history (raise / BaseException / timeout label with instant or slow cancellation clean-up / no-result / malformed / unknown / "
          "failing backend / raising pre- or post-hook / pre-, post-, post_save-, on_error-hook or set_result ending with asyncio.CancelledError "
          "(raised, or a cancelled future awaited: the callback task ends CANCELLED) or another BaseException; in ~16 % of the scenarios 2-4 "
-         "further recording middlewares whose hook invocations independently return, suspend for a virtual delay or fail, per message) followed by A+1 long probe tasks; non-trivial iff finite A, >= A messages "
+         "further recording middlewares whose hook invocations independently return, suspend for a virtual delay or fail, per message) followed by A+1 long probe tasks; Further family (own random stream): the REAL taskiq.api.run_receiver_task coroutine runs for the whole scenario over a scripted listen() that raises 0..3 times (ConnectionError, RuntimeError, TimeoutError, OSError, EOFError, a client's own class, a falsy exception object, an ExceptionGroup, BrokerError) as the first thing a session does / right after taking a message / while tasks are in flight / while idle, the remaining messages going to the re-started listening; N and wait_tasks_timeout set by the receiver class handed to it, stop = the finish event it gave to listen(); decided by the direct oracles only, every listen() session held to the statement by its own messages; non-trivial iff finite A, >= A messages "
          "ending abnormally and a probe present; distinct by canonical scenario",
     trusted_base=["model: coq/theories/RecvLTS.v", "logging shims + raw log -> LTS event grouping: harness/shims.py; harness/vloop.py",
                   "asyncio semantics assumed by the model: a task step is atomic; Semaphore / Queue / wait / done-callbacks as documented"],
     assumptions=["fairness of the asyncio event loop (an enabled task step is eventually run)",
-                 "the broker's listen() generator takes a message only at its yield and raises nothing but StopAsyncIteration"],
+                 "the broker's listen() generator takes a message only at its yield; in the proofs it raises nothing but StopAsyncIteration. "
+                 "Runs under run_receiver_task with a failing listen() are oracle-checked only, with 'one worker' read as one listening "
+                 "session (the reading that demands less): a callback left running by a session whose listen() failed is not counted "
+                 "against the session that replaced it"],
 )
 PROF = dict(probe=True, stop_p=.12, n_p=.1, ends_p=.08, wtt_p=.2, slowcancel=.2, abort_p=.07, mw_p=.16)
+# run_receiver_task running for the whole scenario over a listen() that fails 0..3 times (recv_props.gen_live)
+PROF_LIVE = dict(probe=True, limited_only=True, stop_p=.1, n_p=.08, ends_p=.05, wtt_p=.15, slowcancel=.1, abort_p=.05, mw_p=.1, reg_p=.1,
+                 A_choices=[1, 1, 1, 2, 2, 3, 4])
 FAIL_POINTS = ("pre_fail", "post_fail", "save_fail", "psave_fail", "onerr_fail")
 DELTA = R.US            # a ready message must start within 1 s (virtual) of a slot being free
 
@@ -58,18 +64,23 @@ def oracle(sc, obs):
     #     entry .. callback exit, which brackets hooks, body, save, ack - and, should it come later, the COMPLETION of an
     #     acknowledgement / of a hook's awaitable / of any middleware hook invocation that was begun: `ack` .. `ack.end`,
     #     `hook.aw` .. `hook.aw.end`, `hook.begin` .. `hook.end` - whoever awaits it)
-    proc, peak, body, bpeak = set(), 0, set(), 0
+    #     Under run_receiver_task (sc["live"]) "one worker" is read as one listening session (the reading that demands less):
+    #     a callback that a failed session left running is not counted against the session that replaced it; every session is
+    #     held to the limit by its own messages.
+    procs, bodies, peak, bpeak = {}, {}, 0, 0
     cbopen, inflight = set(), {}
-    order = []
+    orders = {}
     serial_ok = True
     for e in f.raw:
         t, tag, a = e[0], e[1], e[2]
+        if tag in ("cb.start", "cb.end", "ack", "hook.aw", "hook.begin", "ack.end", "hook.aw.end", "hook.end", "body.in", "body.out"):
+            proc, body = procs.setdefault(f.session_of(a), set()), bodies.setdefault(f.session_of(a), set())
         if tag == "cb.start":
             if proc and A == 1:
                 serial_ok = False
             cbopen.add(a)
             proc.add(a)
-            order.append(a)
+            orders.setdefault(f.session_of(a), []).append(a)
         elif tag == "cb.end":
             cbopen.discard(a)
             if not inflight.get(a):
@@ -91,18 +102,21 @@ def oracle(sc, obs):
             if a not in cbopen and not any(o["sig"].get("kind") == "bracket" for o in out):
                 out.append(dict(what="observable processing event outside the message's callback bracket",
                                 observed=[t, tag, a], expected="between cb.start and cb.end", sig=dict(kind="bracket")))
-        peak = max(peak, len(proc))
-        bpeak = max(bpeak, len(body))
+        peak = max([peak] + [len(x) for x in procs.values()])
+        bpeak = max([bpeak] + [len(x) for x in bodies.values()])
     if A is not None and max(peak, bpeak) > A:
         out.append(dict(what="more than max_async_tasks messages processed at one instant", observed=dict(peak=peak, bodies=bpeak),
                         expected="<= %d" % A, sig=dict(kind="limit")))
     # (2) limit 1: strictly one at a time, in delivery order
     if A == 1:
-        taken = [i for _, i in f.takes]
-        if not serial_ok or order != taken[:len(order)]:
-            out.append(dict(what="limit 1: messages not processed one at a time in delivery order",
-                            observed=dict(started=order, taken=taken, overlap=not serial_ok), expected="started = prefix of taken, no overlap",
-                            sig=dict(kind="serial")))
+        for s in sorted(set(f.sess.values()) | set(orders)):
+            taken = [i for _, i in f.takes if f.sess[i] == s]
+            order = orders.get(s, [])
+            if not serial_ok or order != taken[:len(order)]:
+                out.append(dict(what="limit 1: messages not processed one at a time in delivery order",
+                                observed=dict(started=order, taken=taken, overlap=not serial_ok), expected="started = prefix of taken, no overlap",
+                                sig=dict(kind="serial")))
+                break
     # (3) saturation probe: after the fault history min(A, #probes) long tasks run simultaneously
     probes = [i for i, m in enumerate(msgs) if m.get("probe")]
     if probes:
@@ -118,10 +132,24 @@ def oracle(sc, obs):
     #     nothing any more, so the instant of its last event is not the end of the observation)
     cut_t = next((e[0] for e in obs["raw"] if e[1] == "CUTMARK"), None)
     limit_t = f.t0 if f.t0 is not None else cut_t if (cut_t is not None and not f.returned) else f.end_t
-    spans = [(f.cbstart[i][0], (f.cbdone.get(i) or [None])[0]) for i in f.cbstart]
+    #     Under run_receiver_task: a message is ready no earlier than the start of the session that follows the last scripted
+    #     failure of listen() preceding it (no claim while such a failure has not happened, or has not been noticed by the
+    #     worker yet - the prefetcher may be waiting for a permit: the scripted connection holds the message back); the slots are
+    #     those of the session the message belongs to (a replacement session starts with all of them); a message that sat in
+    #     the hand-over queue of a session whose listen() failed was dropped with it - no claim about that one.
+    all_spans = {i: (f.cbstart[i][0], (f.cbdone.get(i) or [None])[0]) for i in f.cbstart}
     prev_start = 0
     for i, m in enumerate(msgs):
         ready = max(m["at"], prev_start)
+        spans = list(all_spans.values())
+        if f.live:
+            before = [x for x in sc["live"]["faults"] if x["k"] <= i]
+            if len(f.faults) < len(before) or any(s + 1 not in f.sess_start for _, s, _ in f.faults[:len(before)]):
+                break
+            ready = max([ready] + [f.sess_start[s + 1] for _, s, _ in f.faults[:len(before)]])
+            if i in f.dropped:
+                continue
+            spans = [sp for j, sp in all_spans.items() if f.session_of(j) == f.session_of(i)]
         # earliest instant >= ready at which fewer than A callbacks hold a slot (computed from the real log of the others)
         free = ready
         if A is not None:
@@ -197,6 +225,8 @@ def run(ctx):
         explore(ctx, rep, corp, "corpus")
     r = ctx.sub_rng("gen")
     scs = [R.gen_scenario(r, PROF) for _ in range(ctx.n(400, 30000))]
+    r4 = ctx.sub_rng("gen-live")             # own stream: the scenarios above are what they were
+    scs += [R.gen_live(r4, PROF_LIVE) for _ in range(ctx.n(70, 4000))]
     broken = explore(ctx, rep, scs, "main")
     if not ctx.quick:
         broken = explore(ctx, rep, R.grid_scenarios(), "grid") or broken
